@@ -2,7 +2,7 @@
 # usage: tools/all_seeds.sh  -- applies every seeded change to /repo in turn, runs the check of its property, reverts;
 # prints one line per seed: CAUGHT (a VIOLATION with a failing input), WEAK (only no-failing-input-found) or MISSED
 cd /verif
-for d in seeded/*/; do
+for d in ${SEEDS:-seeded/*/}; do
   id=$(basename "$d"); prop=$(echo "$id" | cut -c1-3)
   patch="$(readlink -f "$d/patch.diff")"
   if ! git -C /repo apply --check "$patch" 2>/dev/null; then
@@ -10,7 +10,7 @@ for d in seeded/*/; do
   else mode=""; fi
   git -C /repo apply $mode "$patch" || { echo "$id: apply failed"; continue; }
   out=$(/verif/check "$prop" 2>&1)
-  git -C /repo checkout -- . 
+  git -C /repo reset -q --hard HEAD
   if echo "$out" | grep "^VIOLATION" | grep -qv "no-failing-input-found"; then echo "$id: CAUGHT $(echo "$out" | grep '^VIOLATION' | grep -v no-failing | head -1 | sed 's/.*replay=//')"
   elif echo "$out" | grep -q "^VIOLATION"; then echo "$id: WEAK (no-failing-input-found)"
   else echo "$id: MISSED"; fi
